@@ -179,11 +179,13 @@ func (x *ProtoSerializer) MarshalBinaryTo(pool *FramePool, message proto.Message
 		return nil, ErrUnknownMessageType
 	}
 
-	// UseCachedSize lets MarshalAppend reuse the size computed here instead
-	// of traversing the message a second time.
+	// The size is computed without UseCachedSize: with that flag Size itself
+	// returns the size cached by an earlier call, which is stale when the
+	// message has been modified since. The call below refreshes the cache, and
+	// UseCachedSize then lets MarshalAppend reuse it instead of traversing the
+	// message a second time.
+	protoSize := proto.Size(message)
 	opts := proto.MarshalOptions{UseCachedSize: true}
-
-	protoSize := opts.Size(message)
 	totalLen := 4 + 4 + nameLen + protoSize
 
 	var out []byte
@@ -309,11 +311,13 @@ func (x *ProtoSerializer) MarshalBinaryWithMetadataTo(pool *FramePool, message p
 	}
 	metaLen := len(metaBytes)
 
-	// UseCachedSize lets MarshalAppend reuse the size computed here instead
-	// of traversing the message a second time.
+	// The size is computed without UseCachedSize: with that flag Size itself
+	// returns the size cached by an earlier call, which is stale when the
+	// message has been modified since. The call below refreshes the cache, and
+	// UseCachedSize then lets MarshalAppend reuse it instead of traversing the
+	// message a second time.
+	protoSize := proto.Size(message)
 	opts := proto.MarshalOptions{UseCachedSize: true}
-
-	protoSize := opts.Size(message)
 	totalLen := 4 + 4 + nameLen + 4 + metaLen + protoSize
 
 	var out []byte
